@@ -40,17 +40,30 @@ func (c *verifCreds) RequireTransportSecurity() bool { return c.secure }
 // error) x TLS connection or not x unary / streaming x host with or without port.
 func Verif_C13_HTTP() {
 	hooks := &verifHooks{}
-	scheme := []string{"http", "https", "ftp"}[zv.Choose("scheme", 3)]
-	hostHasPort := zv.Bool("host-has-port")
-	useTLS := zv.Bool("tls-connection")
+	// focus 0: the full product of URL / TLS / credential dimensions with the
+	// caller's metadata absent or attached with NewOutgoingContext; focus 1: caller
+	// metadata attached with NewOutgoingContext + AppendToOutgoingContext (URL/TLS
+	// fixed); focus 2: the same grpc.Peer variable reused for a later call over a
+	// plaintext connection (everything else fixed). A sum, not a product.
+	focus := zv.Choose("focus", 3)
+	scheme, hostHasPort, useTLS := "https", false, focus == 2
+	callerKind := 0
+	if focus == 0 {
+		scheme = []string{"http", "https", "ftp"}[zv.Choose("scheme", 3)]
+		hostHasPort = zv.Bool("host-has-port")
+		useTLS = zv.Bool("tls-connection")
+		callerKind = zv.Choose("caller-metadata", 2)
+	} else if focus == 1 {
+		callerKind = 2
+	}
 	streaming := zv.Bool("streaming")
-	hasCreds := zv.Bool("has-creds")
+	hasCreds := focus != 2 && zv.Bool("has-creds")
 	credKind, secure := 0, false
 	if hasCreds {
 		credKind = zv.Choose("cred-metadata", 6) // 0 nil map, 1 disjoint key, 2 overlapping key, 3 error, 4 overlapping key spelled with an upper-case letter, 5 empty non-nil map
 		secure = zv.Bool("creds-require-security")
 	}
-	callerMD := zv.Bool("caller-has-metadata")
+	callerMD := callerKind != 0
 
 	host := "example.test"
 	if hostHasPort {
@@ -79,8 +92,11 @@ func Verif_C13_HTTP() {
 	ch := &Channel{Transport: &verifRouter{unary: ut, stream: st}, BaseURL: verifURL(scheme, host, "/")}
 
 	ctx := context.Background()
-	if callerMD {
+	if callerKind == 1 {
 		ctx = metadata.NewOutgoingContext(ctx, metadata.Pairs("k1", "caller-1", "shared", "caller-s"))
+	} else if callerKind == 2 {
+		ctx = metadata.NewOutgoingContext(ctx, metadata.Pairs("k1", "caller-1"))
+		ctx = metadata.AppendToOutgoingContext(ctx, "shared", "caller-s")
 	}
 	var creds *verifCreds
 	var pr peer.Peer
@@ -176,6 +192,29 @@ func Verif_C13_HTTP() {
 	if pr.AuthInfo != nil {
 		ti, ok := pr.AuthInfo.(credentials.TLSInfo)
 		zv.Assert(ok && ti.State.ServerName == "example.test", "peer-option-carries-connection-state")
+	}
+	if focus == 2 {
+		// the same peer variable used for a later call over a plaintext connection
+		// reports that connection, not the earlier one
+		ut2 := &verifTransport{handler: srv, remoteAddr: "9.9.9.9:99", inline: true}
+		st2 := &verifStreamTransport{handler: srv, remoteAddr: "9.9.9.9:99"}
+		ch2 := &Channel{Transport: &verifRouter{unary: ut2, stream: st2}, BaseURL: verifURL("http", "plain.test:81", "/")}
+		var err2 error
+		if !streaming {
+			err2 = ch2.Invoke(context.Background(), "/a/U", &verifMsg{}, &verifMsg{}, grpc.Peer(&pr))
+		} else {
+			s2, e := ch2.NewStream(context.Background(), zzfix.StreamDescOf("S"), "/a/S", grpc.Peer(&pr))
+			err2 = e
+			if e == nil {
+				s2.CloseSend()
+				if e2 := s2.RecvMsg(&verifMsg{}); e2 != io.EOF {
+					err2 = e2
+				}
+			}
+		}
+		zv.Assert(err2 == nil, "second-call-succeeds")
+		zv.Assert(pr.Addr != nil && pr.Addr.String() == "plain.test:81", "reused-peer-variable-reports-the-new-address")
+		zv.Assert(pr.AuthInfo == nil, "reused-peer-variable-has-no-auth-info-for-a-plaintext-connection")
 	}
 }
 
